@@ -434,7 +434,7 @@ func RunSession(s Session) mon.Result {
 							rel = "later"
 						}
 						key := fmt.Sprintf("c08/reply-of-other-call:%s-reply-of-%s-call", s.Calls[j].Plan, rel)
-						if o.Decoy != "" {
+						if o.Decoy != "" && strings.Contains(o.Fill, fmt.Sprintf(`message-id="%d"`, rc.reqID)) {
 							key = "c08/reply-of-other-call:decoy-id:message-id-text-in-body-of-the-" + rel + "-reply"
 						}
 						return bad(key,
